@@ -11,6 +11,7 @@ Over(base, f) == [o \in DOMAIN base |-> IF o \in DOMAIN f THEN f[o] ELSE base[o]
 VARIABLES l, w, r    \* believed configurations of the live writer / reader instances
 vars == <<l, w, r>>
 
+FailVariant(e) == "variant" \in DOMAIN e /\ e.variant \in {"fail-serialize", "fail-render"}
 Judge(e) ==
   CASE e.op = "NewWriter" ->
          (IF Len(e.insts) = Len(w) + 1 /\ e.insts[Len(e.insts)] = Over(WDefaults, e.opts) THEN {} ELSE {"config.new.own"})
@@ -47,7 +48,12 @@ Judge(e) ==
           ELSE IF e.gotfopt \in {"", r[e.i].fopt} THEN {} ELSE {"config.call.fopt-invented"})
          \cup (IF e.insts = w /\ e.rinsts = r THEN {} ELSE {"config.call.persist"})
          \cup (IF e.fresh = WDefaults /\ e.rfresh = RDefaults THEN {} ELSE {"config.defaults"})
-    [] e.op = "WriteCall" ->
+    [] e.op = "WriteCall" /\ FailVariant(e) ->
+         \* the driver refuses: the call reports the error, and every instance is still what it was
+         (IF e.gotfopt = "failed" THEN {} ELSE {"config.call.error-lost"})
+         \cup (IF e.insts = w /\ e.rinsts = r THEN {} ELSE {"config.call.persist"})
+         \cup (IF e.fresh = WDefaults /\ e.rfresh = RDefaults THEN {} ELSE {"config.defaults"})
+    [] e.op = "WriteCall" /\ ~FailVariant(e) ->
          (IF e.callfopt # "" THEN (IF e.gotfopt = e.callfopt /\ e.gotrenderfopt = e.callfopt THEN {} ELSE {"config.call.fopt"})
           ELSE IF {e.gotfopt, e.gotrenderfopt} \subseteq {"", w[e.i].fopt} THEN {} ELSE {"config.call.fopt-invented"})
          \cup (IF e.callindent # "" THEN (IF e.gotindent = e.callindent THEN {} ELSE {"config.call.render"})
